@@ -303,3 +303,83 @@ func runExpiredTwice(w *world, j *judge, cs childSpec) error {
 	}
 	return nil
 }
+
+var invalidEntryKinds = []string{"bad-role", "bad-role-write", "bad-expires", "empty-key", "unparsable-url", "unparsable-url-2", "bad-role-uppercase-self"}
+
+// invalidEntry builds an entry of the key setting that is not a documented key entry.
+// Key is what a client would present for it (it must grant nothing).
+func invalidEntry(r *vlib.Rand, kind string) cfgKey {
+	name := "I" + randKey(r, r.Range(6, 14))
+	k := cfgKey{Key: name, Invalid: true, Tag: "invalid/" + kind}
+	switch kind {
+	case "bad-role":
+		k.Raw = name + "?read=root&write=admin"
+	case "bad-role-write":
+		k.Raw = name + "?read=admin&write=owner"
+	case "bad-expires":
+		k.Raw = name + "?read=admin&write=admin&expires=tomorrow"
+	case "empty-key":
+		k.Raw, k.Key = "?read=admin&write=admin", "admin"
+	case "unparsable-url":
+		k.Raw = "%zz" + name + "?read=admin&write=admin"
+	case "unparsable-url-2":
+		k.Raw, k.Key = "http://[::1"+name+"?read=admin&write=admin", "[::1"+name
+	default:
+		k.Raw = name + "?read=SELF&write=admin"
+	}
+	return k
+}
+
+// runBadEntry: a setting that removes one key and downgrades another ALSO contains an
+// entry that is not a valid key entry. The newest setting decides all the same: the removed
+// key and the invalid entry grant nothing, the downgraded key grants its new permissions,
+// untouched keys keep theirs.
+func runBadEntry(w *world, j *judge, cs childSpec) error {
+	r := vlib.NewRand(cs.Seed, "C12/badentry", uint64(cs.Shard))
+	targets := []target{
+		{"/verif/p/m1/m1", mTarget{"plain", mDynamic, mDynamic}}, {"/verif/p/2/2", mTarget{"plain", mUser, mUser}}, {"/verif/p/3/3", mTarget{"plain", mAdmin, mAdmin}},
+		{"/api/v1/verif/e/3/2", mTarget{"endpoint", mAdmin, mUser}},
+	}
+	gp := []methodVar{{"GET", "", ""}, {"POST", "", ""}}
+	present := func(mode string, keys []cfgKey) {
+		for i, k := range keys {
+			form := "Bearer " + k.Key
+			if i%2 == 1 {
+				form = "Basic " + b64(k.Key+":")
+			}
+			p := prepared{cv: credVal{Tag: "badentry/" + k.Tag, Authz: form}, ok: true}
+			for _, t := range targets {
+				for _, mv := range gp {
+					w.b.Count("table_cells_planned", 1)
+					j.tableCell(mode, p, t, mv, "")
+					j.b.Count("badentry_cells", 1)
+				}
+			}
+		}
+	}
+	for round := 0; round < cs.N; round++ {
+		for _, kind := range invalidEntryKinds {
+			a := cfgKey{Key: "A" + randKey(r, 12), R: kwAdmin, W: kwAdmin, Tag: "removed"}
+			b := cfgKey{Key: "B" + randKey(r, 12), R: kwAdmin, W: kwUser, Tag: "downgraded"}
+			c := cfgKey{Key: "C" + randKey(r, 12), R: kwUser, W: kwAdmin, Tag: "kept"}
+			if err := w.setKeys([]cfgKey{a, b, c}); err != nil {
+				return err
+			}
+			present("badentry-before", []cfgKey{a, b, c})
+			b2 := b
+			b2.R, b2.W = vlib.Pick(r, "", kwAnyone, kwUser), vlib.Pick(r, "", kwAnyone)
+			d := cfgKey{Key: "D" + randKey(r, 12), R: kwUser, W: kwUser, Tag: "added"}
+			bad := invalidEntry(r, kind)
+			next := []cfgKey{b2, c, d}
+			pos := r.Intn(len(next) + 1)
+			next = append(next[:pos], append([]cfgKey{bad}, next[pos:]...)...)
+			if err := w.setKeys(next); err != nil {
+				return err
+			}
+			j.b.Seen("badentry_kinds", kind)
+			present("badentry-after", []cfgKey{a, b2, c, d, bad})
+		}
+	}
+	j.b.Count("badentry_rounds", int64(cs.N))
+	return nil
+}
